@@ -19,6 +19,8 @@
     Definitions only; proofs in proof/C04_Chain.v, proof/C04_Object.v. *)
 From Coq Require Import List NArith ZArith Bool.
 From SK Require Import lib.Tok lib.LGraph lib.Mono model.C06_Model model.C11_Model model.C03_Model model.C04_Model.
+(* definitions only (sumF, cnt, side0): the vocabulary file of C03 *)
+From SK Require Import proof.C03_Spec.
 Import ListNotations.
 Local Open Scope Z_scope.
 
@@ -289,6 +291,17 @@ Definition id_separatingb (H P : C06_Model.graph) : bool :=
   let pc := comps P in
   forallb (fun p => forallb (fun p' => implb (same_in hc p p') (same_in pc p p')) ps) ps.
 
+(** premise of C04_identity_default_end_total, as a boolean of the template and the prepared rule: every hydrogen atom of the
+    template has at most as many bonds to atoms of the rule on the reactant side as on the product side (so that the hydrogens
+    _strip_explicit_h turns into counts can all be handed on by _explicit_h: no StopIteration) *)
+Definition valence_okb (tpl rc : its) : bool :=
+  forallb (fun h => sumF (fun k => cnt (gedges (side0 iG eG tpl)) h k - cnt (gedges (side0 iH eH tpl)) h k) (node_ids rc) <=? 0) (h_nodes_i tpl).
+Definition own_valence_okb (core invert : bool) (G H : hostg) : bool :=
+  match rule_of core invert G H with
+  | Some (rc, _, _) => valence_okb (template core invert G H) rc
+  | None => false
+  end.
+
 (** the matching stage of one ordinary case: [strat] as the reactor receives it; the raw matches computed with the verified
     enumerator through C06's call interface (as a set; only when [chk_raw]), the hypotheses of C04_in_results_engine_partial
     that are booleans, and the pruning of the implementation's raw list (in its order) with C11's model on the canonical codes *)
@@ -301,6 +314,7 @@ Definition run_matching_opts (core invert : bool) (G H : hostg) (strat : sarg) (
       let pat := tr_pat (pattern_of l) in
       L [tbool (forallb (fun p : N * mnode => 0 <=? m_hc (snd p)) (gnodes (pattern_of l)));
          L [tnat (length (comps host)); tnat (length (comps pat)); tbool (id_separatingb host pat)];
+         tbool (own_valence_okb core invert G H);
          (if chk_raw then
             match api_engine (monos_on host pat) strat thr pref host pat with
             | Result r => L [tset tmapping r]
